@@ -298,9 +298,11 @@ static inline void case_rng(rng_t *r, const args_t *a, long c)
 {
 	rng_init(r, a->seed ^ fnv64(a->sub, strlen(a->sub), 0), (uint64_t)c);
 }
+static const char *g_workdir = "/var/tmp";
 typedef void (*case_fn)(const args_t *a, long c, rng_t *r);
 static inline int run_cases(const args_t *a, case_fn fn)
 {
+	g_workdir = a->workdir;
 	for (long c = a->start; c < a->start + a->count; c++) {
 		rng_t r;
 		g_case = c;
